@@ -161,7 +161,14 @@ class Jr(MipsInstruction):
     tokens = [MipsRToken]
     rs = Operand("rs", MipsRegister, read=True)
     syntax = Syntax(["jr", " ", rs])
-    patters = {"opcode": 0, "rs": rs, "rt": 0, "rd": 0, "shamt": 0, "funct": 8}
+    patterns = {
+        "opcode": 0,
+        "rs": rs,
+        "rt": 0,
+        "rd": 0,
+        "shamt": 0,
+        "funct": 8,
+    }
 
 
 class Jalr(MipsInstruction):
@@ -170,7 +177,14 @@ class Jalr(MipsInstruction):
     tokens = [MipsRToken]
     rs = Operand("rs", MipsRegister, read=True)
     syntax = Syntax(["jalr", " ", rs])
-    patters = {"opcode": 0, "rs": rs, "rt": 0, "rd": 0, "shamt": 0, "funct": 9}
+    patterns = {
+        "opcode": 0,
+        "rs": rs,
+        "rt": 0,
+        "rd": 31,
+        "shamt": 0,
+        "funct": 9,
+    }
 
 
 class J(MipsInstruction):
